@@ -10,7 +10,7 @@ import os
 
 import networkx as nx
 
-from common import Atom, Case, Run, call_impl, prepare, ImplError, dbl, CORPUS_DIR
+from common import Atom, Case, Run, call_impl, prepare, ImplError, dbl, CORPUS_DIR, input_variant, sx
 
 PROOFS = ["FGVerif.Proofs.C09"]
 
@@ -363,15 +363,32 @@ def smiles_case(smiles, tags, meta=None):
                 tags=tuple(tags) + ("via_from_smiles",))
 
 
-def graphs_case(G, H, tags, meta=None):
-    out = call_impl(impl_get_its, G, H)
+# forms in which get_its must accept its arguments (the ITS is that of the plain form): numpy map numbers /
+# ids (a map assigned from an array or a table column), irrelevant extra attributes, frozen graphs, sub-graph views
+VARIANT_KINDS = ("numpy", "extra_attrs", "frozen", "view")
+
+
+def graphs_case(G, H, tags, meta=None, rng=None, variant_kinds=None):
+    """`variant_kinds` (with `rng`): get_its receives semantically equal FORMS of G and H (common.input_variant,
+    one kind drawn per side); request, domain oracle and expected ITS are those of the PLAIN graphs"""
     dom = mol_in_domain(G) and mol_in_domain(H)
     eg, eh = enc_mol(G), enc_mol(H)
+    Gi, Hi = G, H
+    meta = dict(meta or {})
+    if variant_kinds:
+        Gi, tg = input_variant(G, rng, variant_kinds)
+        Hi, th = input_variant(H, rng, variant_kinds)
+        if sx(enc_mol(Gi)) != sx(eg) or sx(enc_mol(Hi)) != sx(eh):
+            raise AssertionError("input_variant changed the wire form (harness defect)")
+        tags = tuple(tags) + ("input_form", "G_" + tg, "H_" + th)
+        meta["variant"] = [tg, th]
+    out = call_impl(impl_get_its, Gi, Hi)
     req = [Atom("C09"), Atom("its"), eg, eh]
     nontrivial = G.number_of_edges() + H.number_of_edges() > 0 and dom
     size = G.number_of_nodes()
     tags = tuple(tags) + ("via_get_its", "n<=4" if size <= 4 else "n<=12" if size <= 12 else "n>12")
-    return Case(req, out, in_domain=dom, meta=meta or {}, nontrivial_key=repr((eg, eh)) if nontrivial else None, tags=tags)
+    key = repr((eg, eh) + tuple(meta.get("variant", ()))) if nontrivial else None
+    return Case(req, out, in_domain=dom, meta=meta, nontrivial_key=key, tags=tags)
 
 
 # ---------------------------------------------------------------------------
@@ -414,7 +431,18 @@ def replay(path):
     req = parse_sx(d["request_line"])
     G, H = graph_from_wire(req[2]), graph_from_wire(req[3])
     smiles = (d.get("meta") or {}).get("smiles")
-    out = call_impl(impl_from_smiles, smiles) if smiles else call_impl(impl_get_its, G, H)
+    variant = (d.get("meta") or {}).get("variant")
+    if smiles:
+        out = call_impl(impl_from_smiles, smiles)
+    elif variant:
+        import random
+        vr = random.Random(d.get("seed", 0))
+        Gv = input_variant(G, vr, (variant[0].split("=")[1],))[0] if variant[0] != "variant=plain" else G
+        Hv = input_variant(H, vr, (variant[1].split("=")[1],))[0] if variant[1] != "variant=plain" else H
+        print("re-applied the recorded input forms: G %s, H %s" % tuple(variant))
+        out = call_impl(impl_get_its, Gv, Hv)
+    else:
+        out = call_impl(impl_get_its, G, H)
     case = Case([Atom("C09"), Atom("its"), enc_mol(G), enc_mol(H)], out)
     drv = Driver()
     reply = drv.ask(case.line())
@@ -455,6 +483,10 @@ def run(tier, seed):
             c = smiles_case(e["smiles"], ["corpus"], {"corpus": e["file"], "note": e.get("note")})
         else:
             c = graphs_case(graph_from_desc(e["G"]), graph_from_desc(e["H"]), ["corpus"], {"corpus": e["file"], "note": e.get("note")})
+            # every corpus reaction also in every other input form (numpy map numbers, extra attributes, frozen, view)
+            for kind in VARIANT_KINDS:
+                cases.append(graphs_case(graph_from_desc(e["G"]), graph_from_desc(e["H"]), ["corpus"],
+                                         {"corpus": e["file"], "note": e.get("note")}, rng=rng, variant_kinds=(kind,)))
         if c is not None:
             cases.append(c)
     mismatches = 0
@@ -496,7 +528,12 @@ def run(tier, seed):
                         elif d.get("aam") == ren[y]:
                             d["aam"] = ren[x]
                     tags = list(tags) + ["after_in_place_renumbering"]
-            case = graphs_case(G, H, tags)
+            if ood is None and rng.random() < 0.15:
+                # the FORM of the input: same reaction handed over with numpy map numbers / ids, extra attributes,
+                # frozen or as a sub-graph view of a larger graph - the ITS must be the plain form's
+                case = graphs_case(G, H, tags, rng=rng, variant_kinds=VARIANT_KINDS)
+            else:
+                case = graphs_case(G, H, tags)
         cases.append(case)
         if len(cases) >= 4000:
             mismatches += check_domain_flags(r, r.evaluate(cases), 0)
@@ -516,7 +553,9 @@ def run(tier, seed):
         level="proof",
         rule="random reactant graphs (0-11 atoms, every 25th up to 40) + random bond changes; shuffled/sparse/ascending maps, partial maps, "
              "one-sided mapped and unmapped atoms, independent node ids / insertion orders / edge orientations per side; 12% valence-correct mapped "
-             "reaction SMILES through ITS.from_smiles; 12% out-of-domain (map number 0, negative, duplicate, bond order 0). "
+             "reaction SMILES through ITS.from_smiles; 12% out-of-domain (map number 0, negative, duplicate, bond order 0); "
+             "15% of the in-domain graph cases (and every corpus reaction) hand G and H over in another FORM (numpy.int64 map numbers and ids / "
+             "extra attributes / nx.freeze / sub-graph view of a larger graph; tags G_variant=*, H_variant=*), judged against the plain form. "
              "non-trivial = in-domain case with at least one bond, distinct by (G, H) wire form",
         checker_cmd="cd lean && lake build FGVerif.Proofs.C09 && lake env lean FGVerif/Audit/C09.lean",
         explanation="theorems in lean/FGVerif/Proofs/C09.lean about Model/C09.lean (its_exact, renumbering_invariant, no_ghost_nodes, "
